@@ -27,6 +27,8 @@ type Ev struct {
 //	sec+<X>  sec~<X>  sec-<ns/name>            X = ns/name!kind!version!dns+dns
 //	cls+<name>:<controller>  cls-<name>
 //	cm~k=v;k=v   cm~-  (no ConfigMap data)
+//	tcp~<port>=<E>;<port>=<E>   tcp~-          the --tcp-services-configmap ConfigMap (whole data; `-` = no entries)
+//	                                           E = ns/svc:port[:[PROXY]:[PROXY[-V1|-V2]]:[ns/crtsecret]:[check|-]:[ns/casecret]]
 //	pod+<ns/name>!ip!label=v;..!t|-            (t = terminating)   pod-<ns/name>
 //	sync                                       reconcile boundary
 //
@@ -274,7 +276,7 @@ func (w *World) Apply(op Op) ([]Ev, error) {
 		return nil, fmt.Errorf("bad op %q", t)
 	}
 	kind, act, arg := "", byte(0), ""
-	for _, k := range []string{"ing", "svc", "sec", "cls", "pod", "ep", "cm"} {
+	for _, k := range []string{"ing", "svc", "sec", "cls", "pod", "ep", "cm", "tcp"} {
 		if strings.HasPrefix(t, k) && len(t) > len(k) {
 			kind, act, arg = k, t[len(k)], t[len(k)+1:]
 		}
@@ -416,6 +418,21 @@ func (w *World) Apply(op Op) ([]Ev, error) {
 			return []Ev{{"create", nil, &api.ConfigMap{}}}, nil // object is filled by the pipeline (name is an option)
 		}
 		return []Ev{{"update", &api.ConfigMap{}, &api.ConfigMap{}}}, nil
+	case "tcp":
+		if act != '~' {
+			return nil, fmt.Errorf("bad tcp op %q", t)
+		}
+		old := w.TCPConfig
+		if arg == "-" {
+			w.TCPConfig = map[string]string{}
+		} else {
+			w.TCPConfig = parseKV(arg)
+		}
+		// the object is filled by the pipeline (its name is an option); the marker name tells Deliver which ConfigMap it is
+		if old == nil {
+			return []Ev{{"create", nil, tcpCMMarker()}}, nil
+		}
+		return []Ev{{"update", tcpCMMarker(), tcpCMMarker()}}, nil
 	case "pod":
 		if act == '-' {
 			old, ok := w.Pods[arg]
@@ -455,6 +472,17 @@ func (p *Pipeline) Deliver(evs []Ev) {
 	for _, e := range evs {
 		old, obj := e.Old, e.New
 		if _, ok := obj.(*api.ConfigMap); ok || isCM(old) {
+			if isTCPCM(obj) || isTCPCM(old) {
+				if p.Opt.TCPConfigMapName == "" {
+					continue
+				}
+				cm := p.TCPConfigMapObject()
+				if e.Op == "update" {
+					old = &api.ConfigMap{ObjectMeta: cm.ObjectMeta}
+				}
+				p.Event(e.Op, old, cm)
+				continue
+			}
 			if p.Opt.ConfigMapName == "" {
 				continue
 			}
@@ -466,6 +494,66 @@ func (p *Pipeline) Deliver(evs []Ev) {
 		}
 		p.Event(e.Op, old, obj)
 	}
+}
+
+// tcpCMMarker: placeholder of the tcp-services ConfigMap in an Ev (the global ConfigMap's placeholder has no name)
+const tcpCMName = "$tcp"
+
+func tcpCMMarker() *api.ConfigMap {
+	cm := &api.ConfigMap{}
+	cm.Name = tcpCMName
+	return cm
+}
+
+func isTCPCM(o client.Object) bool {
+	cm, ok := o.(*api.ConfigMap)
+	return ok && cm != nil && cm.Name == tcpCMName
+}
+
+// TCPEntry is one parsed entry of the tcp-services ConfigMap (same split as configmap.parseService)
+type TCPEntry struct {
+	Port                                                string // the key: public port
+	Svc, SvcPort, InProxy, OutProxy, Crt, Check, CA string
+}
+
+// TCPEntries parses the argument of a `tcp~` op (sorted by public port text)
+func TCPEntries(arg string) []TCPEntry {
+	var res []TCPEntry
+	if arg == "-" || arg == "" {
+		return res
+	}
+	m := parseKV(arg)
+	for _, k := range SortedKeys(m) {
+		f := make([]string, 7)
+		for i, v := range strings.Split(m[k], ":") {
+			if i < 7 {
+				f[i] = v
+			}
+		}
+		res = append(res, TCPEntry{Port: k, Svc: f[0], SvcPort: f[1], InProxy: f[2], OutProxy: f[3], Crt: f[4], Check: f[5], CA: f[6]})
+	}
+	return res
+}
+
+// TCPEntryText renders one entry as `<port>=<value>` (trailing empty fields dropped)
+func TCPEntryText(e TCPEntry) string {
+	f := []string{e.Svc, e.SvcPort, e.InProxy, e.OutProxy, e.Crt, e.Check, e.CA}
+	for len(f) > 2 && f[len(f)-1] == "" {
+		f = f[:len(f)-1]
+	}
+	return e.Port + "=" + strings.Join(f, ":")
+}
+
+// TCPOpText renders a whole `tcp~` op
+func TCPOpText(es []TCPEntry) string {
+	if len(es) == 0 {
+		return "tcp~-"
+	}
+	l := make([]string, len(es))
+	for i, e := range es {
+		l[i] = TCPEntryText(e)
+	}
+	return "tcp~" + strings.Join(l, ";")
 }
 
 func isCM(o client.Object) bool {
